@@ -38,6 +38,26 @@ class Event:
         return '%s %s' % (self.kind, norm_src(self.r))
 
 
+def _fold_arith(e):
+    """value of +, -, * over int literals (not a bare literal), else None"""
+    def ev(x):
+        if isinstance(x, ast.Constant) and type(x.value) is int:
+            return x.value
+        if isinstance(x, ast.BinOp) and isinstance(x.op, (ast.Add, ast.Sub, ast.Mult)):
+            a, b = ev(x.left), ev(x.right)
+            if a is None or b is None:
+                return None
+            return a + b if isinstance(x.op, ast.Add) else \
+                (a - b if isinstance(x.op, ast.Sub) else a * b)
+        if isinstance(x, ast.UnaryOp) and isinstance(x.op, ast.USub):
+            a = ev(x.operand)
+            return None if a is None else -a
+        return None
+    if isinstance(e, ast.Constant):
+        return None
+    return ev(e)
+
+
 class PathSummary:
     def __init__(self):
         self.facts = {}
@@ -424,6 +444,18 @@ def summarise(func, limit=6000, to_raise=True, lists=False):
                     core = t
                     while isinstance(core, ast.UnaryOp) and isinstance(core.op, ast.Not):
                         core = core.operand
+                    folded = _fold_arith(core)
+                    if folded is not None:
+                        # (counters summed over a folded loop: `0 + 1`)
+                        nots_ = 0
+                        x_ = t
+                        while isinstance(x_, ast.UnaryOp) and isinstance(x_.op, ast.Not):
+                            x_ = x_.operand
+                            nots_ += 1
+                        tv_ = bool(folded) if nots_ % 2 == 0 else not bool(folded)
+                        if tv_ != (lab == 'T'):
+                            ps.infeasible = True
+                        continue
                     if isinstance(core, ast.Constant):
                         if bool(core.value) != truth:
                             ps.infeasible = True
